@@ -985,6 +985,13 @@ def raised_key(drv, e):
     size = (e.get("extra") or {}).get("ns_size_before")
     if state == "own-taxa-only" and e.get("own_ns") is None and n_doc is not None and size is not None and size > n_doc:
         state = "foreign-taxa"
+    # the same accounting inside ONE document and even in a fresh namespace: with suppress_internal_node_taxa=False the
+    # internal node labels of a TREES block become taxa, and a DATA block that follows counts them against its NTAX
+    # (thorough seed 11).  Own state name, so that the recorded defect is matched by mechanism and nothing else is.
+    if (state == "own-taxa-only" and err_disc(e["error"]).startswith("TooManyTaxaError|NexusReader._get_taxon")
+            and (drv.options or {}).get("suppress_internal_node_taxa") is False
+            and "internal-labels" in (drv.doc.get("features") or ())):
+        state = "internal-node-label-taxa"
     key = "raised-where-others-deliver|%s|%s|%s|%s" % (err_disc(e["error"]), drv.schema, family(e["route"]), state)
     if drv.doc.get("taxa_blocks", 0) > 1:
         key += "|several-taxa-blocks"
